@@ -4,7 +4,8 @@ alignment characters into tip vectors.
 Every contract function runs the REAL implementation on symbolic inputs (int character codes / choice
 indices; numpy / torch are C level, so CrossHair realises a symbolic value when it reaches them - the
 verdict "Confirmed over all paths" then is a solver-driven exhaustive case split of the stated finite
-domain) and an INDEPENDENT oracle written below (IUPAC table, stop-codon lists per genetic code, column
+domain; lookups `BOX[i][0]` in a constant table of 1-tuples are used to make CrossHair split a small choice index per
+entry) and an INDEPENDENT oracle written below (IUPAC table, stop-codon lists per genetic code, column
 multisets) and returns `(impl, oracle, reached)`:
 
     <name>        post: _[0] == _[1]     the obligation
@@ -71,7 +72,7 @@ def aa_set(code):
 
 
 # the two character tables, tabulated once (concretely) from the rules above; a contract function looks its symbolic
-# character code up in them (CrossHair splits a lookup in a constant table by distinct entry, not by index)
+# character code up in them (CrossHair turns a lookup in a constant table into an if-then-else term / a split per entry)
 NUC_SETS = tuple(nuc_set(i) for i in range(128))
 AA_SETS = tuple(aa_set(i) for i in range(128))
 
@@ -103,35 +104,15 @@ def raised(e):
 
 # ====================================================================== configuration
 CFG = {}
+INT_BOX = tuple((i,) for i in range(16))
+BOOL_BOX = ((False,), (True,))
 
 
-def configure(env):
-    """(re)read the configuration; called with os.environ at import and by the driver before a replay"""
-    g = globals()
-    CFG.clear()
-    CFG.update({k: v for k, v in env.items() if k.startswith('C01K3_')})
-    g['CODE'] = int(env.get('C01K3_CODE', '0'))
-    g['CODON_ALPHABET'] = env.get('C01K3_CODON_ALPHABET', 'ACGTN-')
-    g['KMIN'] = int(env.get('C01K3_KMIN', '2'))
-    g['KMAX'] = int(env.get('C01K3_KMAX', '3'))
-    g['NT'] = int(env.get('C01K3_NT', '2'))
-    g['NC'] = int(env.get('C01K3_NC', '2'))
-    g['SYMS'] = tuple(env.get('C01K3_SYMS', 'A,C,-').split(','))
-    g['DTYPE'] = env.get('C01K3_DTYPE', 'nucleotide')  # nucleotide | aminoacid | codon
-    g['IXMAX'] = int(env.get('C01K3_IXMAX', '0'))
-    g['X0'] = int(env.get('C01K3_X0', '-1'))  # case split over the first cell (parallelism), -1 = free
-    g['_NUCT'] = NucleotideDataType(None)
-    g['_AAT'] = AminoAcidDataType(None)
-    try:
-        g['_CODT'] = CodonDataType(None, CODE_NAMES[g['CODE']].upper())  # the lookup is case-insensitive
-    except Exception as e:
-        g['_CODT'] = raised(e)
-    g['PERMS'] = _perms(g['NT'])
-    al = g['CODON_ALPHABET']
-    trip = [(a, b, c) for a in al for b in al for c in al]
-    g['CODON_ENC'] = tuple(codon_oracle(g['CODE'], t)[0] for t in trip)
-    g['CODON_STOP'] = tuple(''.join(nuc_set(ord(c)) if len(nuc_set(ord(c))) == 1 else '.' for c in t) in CODE_STOPS[g['CODE']]
-                            for t in trip)
+def _product(items, n):
+    out = [()]
+    for _ in range(n):
+        out = [p + (x,) for p in out for x in items]
+    return out
 
 
 def _perms(n):
@@ -141,9 +122,106 @@ def _perms(n):
     return out
 
 
+def configure(env):
+    """(re)read the configuration; called with os.environ at import and by the driver before a concrete replay"""
+    g = globals()
+    CFG.clear()
+    CFG.update({k: v for k, v in env.items() if k.startswith('C01K3_')})
+    # (2) codon
+    g['CODE'] = int(env.get('C01K3_CODE', '0'))
+    al = env.get('C01K3_CODON_ALPHABET', 'ACGT-')
+    g['CODON_ALPHABET'] = al
+    g['ALPHABET_BOX'] = tuple((c,) for c in al)
+    nsense = 64 - len(CODE_STOPS[g['CODE']])
+    g['CODON_ORC'] = {}
+    g['CODON_STOP'] = {}
+    for t in _product(al, 3):
+        enc, par = codon_oracle(g['CODE'], t)
+        g['CODON_ORC'][t] = (nsense, enc, tuple(par))
+        g['CODON_STOP'][t] = ''.join(nuc_set(ord(c)) if len(nuc_set(ord(c))) == 1 else '.' for c in t) in CODE_STOPS[g['CODE']]
+    # (3) general
+    g['KMIN'] = int(env.get('C01K3_KMIN', '3'))
+    g['KMAX'] = int(env.get('C01K3_KMAX', '3'))
+    g['GM2'] = int(env.get('C01K3_M2', '-1'))  # case split over the second ambiguity mask (parallelism), -1 = free
+    # (4) alignments
+    g['NT'] = int(env.get('C01K3_NT', '2'))
+    g['NC'] = int(env.get('C01K3_NC', '2'))
+    g['SYMS'] = tuple(env.get('C01K3_SYMS', 'A,C,-').split(','))
+    g['DTYPE'] = env.get('C01K3_DTYPE', 'nucleotide')  # nucleotide | aminoacid | codon (genetic code CODE)
+    g['IXMAX'] = int(env.get('C01K3_IXMAX', '0'))
+    g['C0'] = int(env.get('C01K3_C0', '-1'))  # case split over the first column (parallelism), -1 = free
+    g['PERM'] = int(env.get('C01K3_PERM', '-1'))  # case split over the hand-over order, -1 = free
+    g['PERMS'] = _perms(g['NT'])
+    g['COL_BOX'] = tuple(_product(g['SYMS'], g['NT']))  # every possible alignment column (taxa order), as tuples
+    g['SEL_OK'] = tuple(tuple(n >= 1 and len(selected_columns(ch, n)) >= 1 for ch in index_choices(max(n, 1))) for n in range(4))
+    # data type objects (the real ones)
+    g['_NUCT'] = NucleotideDataType(None)
+    g['_AAT'] = AminoAcidDataType(None)
+    try:
+        g['_CODT'] = CodonDataType(None, CODE_NAMES[g['CODE']].upper())  # the lookup by name is case-insensitive
+    except Exception as e:
+        g['_CODT'] = raised(e)
+    _apply_mutant(env.get('C01K3_MUTANT', ''))
+
+
+# harness sensitivity tests only (C01K3_MUTANT=...): in-memory stand-ins for seeded defects; /repo stays untouched and the
+# driver writes a note into the evidence whenever one is active
+_ORIG = {}
+
+
+def _apply_mutant(name):
+    import numpy as np
+
+    g = globals()
+    if not _ORIG:
+        _ORIG.update(table=NucleotideDataType.NUCLEOTIDE_STATES, compress=compress, ca=compress_alignment,
+                     cas=compress_alignment_states, gpartial=GeneralDataType.partial)
+    NucleotideDataType.NUCLEOTIDE_STATES = _ORIG['table']
+    g['compress'], g['compress_alignment'], g['compress_alignment_states'] = _ORIG['compress'], _ORIG['ca'], _ORIG['cas']
+    GeneralDataType.partial = _ORIG['gpartial']
+    if not name:
+        return
+    tab = list(_ORIG['table'])
+    if name == 'nuc-R':  # R read as Y
+        tab[ord('R')] = 6
+        NucleotideDataType.NUCLEOTIDE_STATES = tuple(tab)
+    elif name == 'nuc-lower':  # lower-case m unknown
+        tab[ord('m')] = 16
+        NucleotideDataType.NUCLEOTIDE_STATES = tuple(tab)
+    elif name == 'codon-rank' and not isinstance(_CODT, list):  # exclusive instead of inclusive stop count
+        _CODT.stop_count = np.concatenate([[0], _CODT.stop_count[:-1]])
+        _CODT.stop_count[60:] += 1
+    elif name == 'order':  # tip vectors in the order of the names, not of Taxa
+
+        def ca(al, indices=None, use_ambiguities=True):
+            p, w = _ORIG['ca'](al, indices, use_ambiguities)
+            order = sorted(range(len(p)), key=lambda i: al.taxa[i].id)
+            return [p[i] for i in order], w
+
+        g['compress_alignment'] = ca
+    elif name == 'weights':  # repeated columns counted once
+
+        def cs(al, indices=None):
+            p, w = _ORIG['cas'](al, indices)
+            return p, w.clamp(max=1)
+
+        g['compress_alignment_states'] = cs
+    elif name == 'union':  # ambiguity = first state only
+
+        def gp(self, string, use_ambiguities=True):
+            p = list(_ORIG['gpartial'](self, string, use_ambiguities))
+            if string in self.ambiguities and isinstance(self.ambiguities[string], list) and sum(p) > 1:
+                p[p.index(1.0)] = 0.0
+            return tuple(p)
+
+        GeneralDataType.partial = gp
+    else:
+        raise ValueError(f'unknown C01K3_MUTANT {name}')
+
+
 # ====================================================================== (1) NucleotideDataType / AminoAcidDataType
 def _listf(x):
-    return [float(v) for v in x]
+    return list(map(float, x))
 
 
 def _nuc_partial(c, code, amb):
@@ -274,11 +352,10 @@ def aa_partial_twin(code: int, amb: bool):
 
 # ====================================================================== (2) CodonDataType
 def _codon(n1, n2, n3, tup):
-    chars = (CODON_ALPHABET[n1], CODON_ALPHABET[n2], CODON_ALPHABET[n3])
-    m = len(CODON_ALPHABET)
-    n = 64 - len(CODE_STOPS[CODE])
-    o_enc = CODON_ENC[(n1 * m + n2) * m + n3]  # tabulated codon_oracle(CODE, .)
-    o_par = [1.0] * n if o_enc == n else [1.0 if i == o_enc else 0.0 for i in range(n)]
+    # ALPHABET_BOX[i] = (character,): the lookup makes CrossHair split the path per entry, so the characters are concrete
+    # below (the numpy indexing inside CodonDataType.encoding would realise them anyway)
+    chars = (ALPHABET_BOX[n1][0], ALPHABET_BOX[n2][0], ALPHABET_BOX[n3][0])
+    n, o_enc, o_par = CODON_ORC[chars]  # tabulated codon_oracle(CODE, .)
     try:
         t = _CODT
         arg = chars if tup else chars[0] + chars[1] + chars[2]  # compress() hands over a tuple of 3 characters
@@ -286,12 +363,11 @@ def _codon(n1, n2, n3, tup):
         impl = [int(t.state_count), e if e < n else n] + _listf(t.partial(arg, True))
     except Exception as ex:
         impl = raised(ex)
-    return impl, [n, o_enc] + o_par, o_enc < n
+    return impl, [n, o_enc] + list(o_par), o_enc < n
 
 
 def _is_stop(n1, n2, n3):
-    m = len(CODON_ALPHABET)
-    return CODON_STOP[(n1 * m + n2) * m + n3]
+    return CODON_STOP[(ALPHABET_BOX[n1][0], ALPHABET_BOX[n2][0], ALPHABET_BOX[n3][0])]
 
 
 def _cdom(n1, n2, n3):
@@ -330,6 +406,8 @@ def codon_stop(n1: int, n2: int, n3: int, tup: bool):
 
 def codon_stop_twin(n1: int, n2: int, n3: int, tup: bool):
     """
+    (reachability only: some admitted triplet is a stop codon and the body runs to its end)
+
     pre: _cdom(n1, n2, n3) and _is_stop(n1, n2, n3)
     post: _[2]
     """
@@ -338,33 +416,35 @@ def codon_stop_twin(n1: int, n2: int, n3: int, tup: bool):
 
 # ====================================================================== (3) GeneralDataType
 POOL = 'ACGT'
-
-
-def _bits(m, k):
-    return [POOL[i] for i in range(k) if (m >> i) & 1]
+MASK_SETS = tuple(tuple(POOL[i] for i in range(4) if (m >> i) & 1) for m in range(16))  # bit i of the mask = POOL[i]
+POPCOUNT = tuple(len(x) for x in MASK_SETS)
+LIMIT = (1, 2, 4, 8, 16)
+QUERIES = tuple(tuple(POOL[:k]) + ('R', 'Y', 'U', '?', '-') for k in range(5))
 
 
 def _popcount(m):
-    return (m & 1) + ((m >> 1) & 1) + ((m >> 2) & 1) + ((m >> 3) & 1)
+    return POPCOUNT[m]
 
 
 def _general(k, m1, m2, a, q):
     """k states POOL[:k]; ambiguity symbols 'R' -> list(bits of m1), 'Y' -> list(bits of m2); alias 'U' -> POOL[a];
-    query = q-th entry of states + ['R', 'Y', 'U', '?', '-']"""
-    states = tuple(POOL[:k])
-    amb = {'R': _bits(m1, k), 'Y': _bits(m2, k), 'U': POOL[a]}
-    query = list(states) + ['R', 'Y', 'U', '?', '-']
-    ch = query[q]
+    query = q-th entry of states + ('R', 'Y', 'U', '?', '-')"""
+    states = QUERIES[k][:-5]
+    k = len(states)
+    tgt = INT_BOX[a][0]
+    tgt = states[tgt]
+    amb = {'R': list(MASK_SETS[m1]), 'Y': list(MASK_SETS[m2]), 'U': tgt}
+    ch = QUERIES[k][INT_BOX[q][0]]
     if ch in states:
         o_set, o_enc = [ch], states.index(ch)
     elif ch == 'U':
-        o_set, o_enc = [POOL[a]], a
+        o_set, o_enc = [tgt], states.index(tgt)
     elif ch in amb:
         o_set, o_enc = amb[ch], (k if len(amb[ch]) > 1 else states.index(amb[ch][0]))
     else:
         o_set, o_enc = list(states), k
     try:
-        t = GeneralDataType(None, states, {kk: (list(v) if isinstance(v, list) else v) for kk, v in amb.items()})
+        t = GeneralDataType(None, states, {'R': list(amb['R']), 'Y': list(amb['Y']), 'U': tgt})
         e = int(t.encoding(ch))
         impl = [int(t.state_count), e if e < k else k] + _listf(t.partial(ch, True))
     except Exception as ex:
@@ -373,7 +453,12 @@ def _general(k, m1, m2, a, q):
 
 
 def _gdom(k, m1, m2, a, q):
-    return KMIN <= k <= KMAX and 0 < m1 < (1 << k) and 0 < m2 < (1 << k) and 0 <= a < k and 0 <= q < k + 5
+    if not KMIN <= k <= KMAX:
+        return False
+    if GM2 >= 0 and m2 != GM2:
+        return False
+    lim = LIMIT[k]
+    return 0 < m1 < lim and 0 < m2 < lim and 0 <= a < k and 0 <= q < k + 5
 
 
 def general(k: int, m1: int, m2: int, a: int, q: int):
@@ -415,6 +500,8 @@ def general_single_twin(k: int, m1: int, m2: int, a: int, q: int):
 
 # ====================================================================== (4) compress / compress_alignment / ..._states
 TAXA_NAMES = ('t2', 't0', 't1')  # Taxa order deliberately differs from the lexical order of the names
+PARTS = ('compress', 'compress_alignment[use_ambiguities=True]', 'compress_alignment[use_ambiguities=False]',
+         'compress_alignment_states')
 
 
 def index_choices(ncols):
@@ -452,15 +539,13 @@ def token_oracle(tok, amb):
     return tuple(par), enc
 
 
-def build(cells, ncols, perm, names=TAXA_NAMES):
-    """alignment of NT taxa x ncols tokens; sequences handed over in the order PERMS[perm]"""
+def build(cols, perm, names=TAXA_NAMES):
+    """alignment with the given columns (tuples over the NT taxa in Taxa order); sequences handed over in order PERMS[perm]"""
     names = list(names[:NT])
-    rows = [[SYMS[cells[i * NC + j]] for j in range(ncols)] for i in range(NT)]
-    seqs = [''.join(r) for r in rows]
-    sequences = [Sequence(names[i], seqs[i]) for i in PERMS[perm]]
+    rows = [[col[i] for col in cols] for i in range(NT)]
+    sequences = [Sequence(names[i], ''.join(rows[i])) for i in PERMS[perm]]
     taxa = Taxa(None, [Taxon(n, {}) for n in names])
-    al = Alignment(None, sequences, taxa, data_type())
-    return names, rows, al
+    return names, rows, Alignment(None, sequences, taxa, data_type())
 
 
 def _ms(keys, weights):
@@ -470,120 +555,97 @@ def _ms(keys, weights):
     return sorted(d.items())
 
 
-def _cmp(which, cells, ncols, perm, ix, amb, names=TAXA_NAMES):
-    """which: 0 compress, 1 compress_alignment, 2 compress_alignment_states.
-    Returns (impl, oracle, reached) with impl / oracle = [weighted multiset of columns, weights positive, sum of weights]
-    where a column is the tuple over taxa IN TAXA ORDER of tokens (0) / tip vectors (1) / tip states (2)."""
-    names, rows, al = build(cells, ncols, perm, names)
-    indices = index_choices(ncols)[ix]
-    sel = selected_columns(indices, ncols)
+def view(part, tok):
+    if part == 0:
+        return tuple(tok) if len(tok) > 1 else tok
+    return token_oracle(tok, part == 1)[0 if part < 3 else 1]
 
-    def view(tok):
-        if which == 0:
-            return tuple(tok) if len(tok) > 1 else tok
-        return token_oracle(tok, amb)[which - 1]
 
-    orc = [_ms([tuple(view(rows[i][j]) for i in range(NT)) for j in sel], [1] * len(sel)), True, len(sel)]
+def impl_part(part, al, names, indices):
+    """[weighted multiset of columns, all weights positive, sum of weights] as produced by the real function; a column is
+    the tuple over the taxa IN TAXA ORDER of tokens (part 0) / tip vectors (1, 2) / tip states (3)"""
     try:
-        if which == 0:
+        if part == 0:
             patterns, weights = compress(al, indices)
-            w = [int(x) for x in weights.tolist()]
+            w = list(map(int, weights.tolist()))
             if sorted(patterns.keys()) != sorted(names):
-                return ['taxa-keys', sorted(patterns.keys())], orc, False
+                return ['taxa-keys', sorted(patterns.keys())], w
             if any(len(patterns[n]) != len(w) for n in names):
-                return ['pattern-length', [len(patterns[n]) for n in names], len(w)], orc, False
-            cols = [tuple(patterns[n][p] for n in names) for p in range(len(w))]
-        elif which == 1:
-            partials, weights = compress_alignment(al, indices, amb)
-            w = [int(x) for x in weights.tolist()]
+                return ['pattern-length', [len(patterns[n]) for n in names], len(w)], w
+            cols = list(zip(*[patterns[n] for n in names]))
+        elif part < 3:
+            partials, weights = compress_alignment(al, indices, part == 1)
+            w = list(map(int, weights.tolist()))
             if len(partials) != NT or any(list(t.shape) != [al.data_type.state_count, len(w)] for t in partials):
-                return ['shape', [list(t.shape) for t in partials], len(w)], orc, False
-            lists = [t.tolist() for t in partials]
-            cols = [tuple(tuple(float(lists[i][s][p]) for s in range(len(lists[i]))) for i in range(NT)) for p in range(len(w))]
+                return ['shape', [list(t.shape) for t in partials], len(w)], w
+            cols = list(zip(*[list(map(tuple, t.t().tolist())) for t in partials]))
         else:
             states, weights = compress_alignment_states(al, indices)
-            w = [int(x) for x in weights.tolist()]
+            w = list(map(int, weights.tolist()))
             if len(states) != NT or any(list(t.shape) != [len(w)] for t in states):
-                return ['shape', [list(t.shape) for t in states], len(w)], orc, False
-            lists = [t.tolist() for t in states]
-            cols = [tuple(int(lists[i][p]) for i in range(NT)) for p in range(len(w))]
-        impl = [_ms(cols, w), all(x > 0 for x in w), sum(w)]
+                return ['shape', [list(t.shape) for t in states], len(w)], w
+            cols = list(zip(*[t.tolist() for t in states]))
+        return [_ms(cols, w), min(w) > 0, sum(w)], w
     except Exception as ex:
-        return raised(ex), orc, False
-    return impl, orc, any(x > 1 for x in w)
+        return raised(ex), []
 
 
-def _adom(x0, x1, x2, x3, x4, x5, x6, x7, x8, ncols, perm, ix):
-    cells = (x0, x1, x2, x3, x4, x5, x6, x7, x8)
-    for i in range(9):
-        used = i < NT * NC and (i % NC) < ncols
-        if used:
-            if not 0 <= cells[i] < len(SYMS):
-                return False
-        elif cells[i] != 0:
-            return False
-    if X0 >= 0 and x0 != X0:
+def oracle_part(part, rows, sel, order=None):
+    order = range(NT) if order is None else order
+    return [_ms([tuple(view(part, rows[i][j]) for i in order) for j in sel], [1] * len(sel)), True, len(sel)]
+
+
+def _cmp(c0, c1, c2, ncols, perm, ix):
+    """all four parts on one symbolic alignment: (impl, oracle, reached) with impl / oracle = list over PARTS"""
+    ncols, perm, ix = INT_BOX[ncols][0], INT_BOX[perm][0], INT_BOX[ix][0]
+    cols = [COL_BOX[c] for c in (c0, c1, c2)[:ncols]]
+    names, rows, al = build(cols, perm)
+    indices = index_choices(ncols)[ix]
+    sel = selected_columns(indices, ncols)
+    impl, orc, reached = [], [], False
+    for part in range(4):
+        i, w = impl_part(part, al, names, indices)
+        impl.append(i)
+        orc.append(oracle_part(part, rows, sel))
+        reached = reached or (len(w) > 0 and max(w) > 1)
+    return impl, orc, reached
+
+
+def _adom(c0, c1, c2, ncols, perm, ix):
+    m = len(COL_BOX)
+    if not (1 <= ncols <= NC and 0 <= perm < len(PERMS) and 0 <= ix <= IXMAX):
         return False
-    if not (0 <= perm < len(PERMS) and 0 <= ix <= IXMAX):
+    if (C0 >= 0 and c0 != C0) or (PERM >= 0 and perm != PERM):
         return False
-    return len(selected_columns(index_choices(ncols)[ix], ncols)) >= 1
+    if not (0 <= c0 < m and 0 <= c1 < m and 0 <= c2 < m):
+        return False
+    if (ncols < 2 and c1 != 0) or (ncols < 3 and c2 != 0):
+        return False
+    return SEL_OK[INT_BOX[ncols][0]][ix]
 
 
-def cmp_compress(x0: int, x1: int, x2: int, x3: int, x4: int, x5: int, x6: int, x7: int, x8: int, ncols: int, perm: int, ix: int):
+def cmp_all(c0: int, c1: int, c2: int, ncols: int, perm: int, ix: int):
     """
-    compress(alignment, indices): the weighted patterns are the multiset of the selected columns (taxa keyed by name),
-    weights positive, summing to the number of selected columns; independent of the order the sequences were given in.
+    Alignment of NT taxa with ncols <= NC columns c_j (index into COL_BOX = SYMS ** NT), sequences handed over in the order
+    PERMS[perm], site selection index_choices(ncols)[ix].  For compress (patterns keyed by taxon name), compress_alignment
+    with and without ambiguities and compress_alignment_states (tensor i = i-th taxon of Taxa): the weighted patterns are
+    the multiset of the selected columns (as tokens / oracle tip vectors / oracle tip states, taxa in Taxa order), the
+    weights are positive and sum to the number of selected columns.
 
-    pre: 1 <= ncols <= NC and _adom(x0, x1, x2, x3, x4, x5, x6, x7, x8, ncols, perm, ix)
+    pre: _adom(c0, c1, c2, ncols, perm, ix)
     post: _[0] == _[1]
     """
-    return _cmp(0, (x0, x1, x2, x3, x4, x5, x6, x7, x8), ncols, perm, ix, True)
+    return _cmp(c0, c1, c2, ncols, perm, ix)
 
 
-def cmp_compress_twin(x0: int, x1: int, x2: int, x3: int, x4: int, x5: int, x6: int, x7: int, x8: int, ncols: int, perm: int, ix: int):
+def cmp_all_twin(c0: int, c1: int, c2: int, ncols: int, perm: int, ix: int):
     """
-    pre: 1 <= ncols <= NC and _adom(x0, x1, x2, x3, x4, x5, x6, x7, x8, ncols, perm, ix)
+    (reached = some pattern weight > 1, i.e. a repeated column really was merged)
+
+    pre: _adom(c0, c1, c2, ncols, perm, ix)
     post: not _[2]
     """
-    return _cmp(0, (x0, x1, x2, x3, x4, x5, x6, x7, x8), ncols, perm, ix, True)
-
-
-def cmp_partials(x0: int, x1: int, x2: int, x3: int, x4: int, x5: int, x6: int, x7: int, x8: int, ncols: int, perm: int, ix: int, amb: bool):
-    """
-    compress_alignment(alignment, indices, use_ambiguities): tensor i holds the tip vectors of the i-th taxon of Taxa;
-    the weighted columns of tip vectors are the multiset of the oracle tip vectors of the selected alignment columns.
-
-    pre: 1 <= ncols <= NC and _adom(x0, x1, x2, x3, x4, x5, x6, x7, x8, ncols, perm, ix)
-    post: _[0] == _[1]
-    """
-    return _cmp(1, (x0, x1, x2, x3, x4, x5, x6, x7, x8), ncols, perm, ix, amb)
-
-
-def cmp_partials_twin(x0: int, x1: int, x2: int, x3: int, x4: int, x5: int, x6: int, x7: int, x8: int, ncols: int, perm: int, ix: int, amb: bool):
-    """
-    pre: 1 <= ncols <= NC and _adom(x0, x1, x2, x3, x4, x5, x6, x7, x8, ncols, perm, ix)
-    post: not _[2]
-    """
-    return _cmp(1, (x0, x1, x2, x3, x4, x5, x6, x7, x8), ncols, perm, ix, amb)
-
-
-def cmp_states(x0: int, x1: int, x2: int, x3: int, x4: int, x5: int, x6: int, x7: int, x8: int, ncols: int, perm: int, ix: int):
-    """
-    compress_alignment_states(alignment, indices): tensor i holds the tip states of the i-th taxon of Taxa (state index,
-    state_count for "no single state"); weighted columns = multiset of the oracle states of the selected columns.
-
-    pre: 1 <= ncols <= NC and _adom(x0, x1, x2, x3, x4, x5, x6, x7, x8, ncols, perm, ix)
-    post: _[0] == _[1]
-    """
-    return _cmp(2, (x0, x1, x2, x3, x4, x5, x6, x7, x8), ncols, perm, ix, True)
-
-
-def cmp_states_twin(x0: int, x1: int, x2: int, x3: int, x4: int, x5: int, x6: int, x7: int, x8: int, ncols: int, perm: int, ix: int):
-    """
-    pre: 1 <= ncols <= NC and _adom(x0, x1, x2, x3, x4, x5, x6, x7, x8, ncols, perm, ix)
-    post: not _[2]
-    """
-    return _cmp(2, (x0, x1, x2, x3, x4, x5, x6, x7, x8), ncols, perm, ix, True)
+    return _cmp(c0, c1, c2, ncols, perm, ix)
 
 
 configure(_os.environ)
